@@ -383,7 +383,7 @@ class FileSystemChain(FileSystem[File[FileSystem[Any]]]):
             for file in sys.walk_folder(full_folder):
                 yield File(
                     self,
-                    os.path.relpath(file.path, prefix).replace('\\', '/'),
+                    os.path.relpath(file.path, prefix.replace('\\', '/')).replace('\\', '/'),
                     file,
                 )
 
